@@ -10,21 +10,40 @@ Import ListNotations.
 Local Open Scope list_scope.
 Local Open Scope Z_scope.
 
-Fixpoint dec_mws (l : list value) : option (list (Z * bool)) :=
+(* trees as they come in a case: a middleware carries a flag - 0 refuses, 1 accepts,
+   2 accepts exactly the requests that carry an "X-Pass" header *)
+Inductive fnode :=
+| FNode (mws : list (Z * Z)) (redirs : list (bytes * bytes)) (subs : list (bytes * fnode)) (pk pid : Z).
+
+Definition flag_accepts (pass : bool) (f : Z) : bool :=
+  if f =? 0 then false else if f =? 2 then pass else true.
+
+Fixpoint resolve (pass : bool) (n : fnode) : node :=
+  match n with
+  | FNode mws redirs subs pk pid =>
+      Node (map (fun m => (fst m, flag_accepts pass (snd m))) mws) redirs
+           ((fix go (l : list (bytes * fnode)) : list (bytes * node) :=
+               match l with
+               | [] => []
+               | (pat, c) :: l' => (pat, resolve pass c) :: go l'
+               end) subs) pk pid
+  end.
+
+Fixpoint dec_mws (l : list value) : option (list (Z * Z)) :=
   match l with
   | [] => Some []
-  | VL [VI id; VI a] :: l' => match dec_mws l' with Some r => Some ((id, as_bool a) :: r) | None => None end
+  | VL [VI id; VI a] :: l' => match dec_mws l' with Some r => Some ((id, a) :: r) | None => None end
   | _ => None
   end.
 
 (* fuel-driven (values nest arbitrarily) *)
-Fixpoint dec_node (fuel : nat) (v : value) : option node :=
+Fixpoint dec_node (fuel : nat) (v : value) : option fnode :=
   match fuel with
   | O => None
   | S f =>
       match v with
       | VL [VL mws; VL redirs; VL subs; VI pk; VI pid] =>
-          let fix dec_subs (l : list value) : option (list (bytes * node)) :=
+          let fix dec_subs (l : list value) : option (list (bytes * fnode)) :=
             match l with
             | [] => Some []
             | VL [VB pat; child] :: l' =>
@@ -35,18 +54,20 @@ Fixpoint dec_node (fuel : nat) (v : value) : option node :=
             | _ => None
             end in
           match dec_mws mws, get_pairs redirs, dec_subs subs with
-          | Some m, Some r, Some sb => Some (Node m r sb pk pid)
+          | Some m, Some r, Some sb => Some (FNode m r sb pk pid)
           | _, _, _ => None
           end
       | _ => None
       end
   end.
 
-Definition dec_tree (v : value) : option (option node) :=
+Definition dec_tree (v : value) : option (option fnode) :=
   match v with
   | VL [] => Some None
   | _ => match dec_node 8 v with Some n => Some (Some n) | None => None end
   end.
+
+Definition request_passes (rq : request) : bool := hm_contains (B "X-Pass") (q_headers rq).
 
 Definition rxtab := list (bytes * bytes * option (bytes * list bytes)).
 
@@ -70,8 +91,9 @@ Fixpoint rx_lookup (t : rxtab) (pat path : bytes) : rxr :=
       else rx_lookup t' pat path
   end.
 
-Definition srv_pol (rx : rxo) (root : option node) : pol :=
-  {| on_headers := server_dispatch rx root; on_ready := []; on_finished := []; hdr_after := true |}.
+Definition srv_pol (rx : rxo) (root : option fnode) : pol :=
+  {| on_headers := fun rq => server_dispatch rx (option_map (resolve (request_passes rq)) root) rq;
+     on_ready := []; on_finished := []; hdr_after := true |}.
 
 Definition run_srv4 (tree ops orc : value) : value :=
   match ops, orc with
@@ -89,5 +111,33 @@ Definition run_srv (c : value) : value :=
   match c with
   | VL [t; ops; orc] => run_srv4 t ops orc
   | VL [t; ops; orc; _] => run_srv4 t ops orc
+  | _ => verr
+  end.
+
+(* family "srvm": several connections, one after the other, to ONE server and handler tree
+   case ::= ( tree ( ops .. ) oracle [meta] ) ; log = per connection (21 i) followed by its log *)
+Definition run_conn (e : env) (rt : rxtab) (root : option fnode) (i : Z) (v : value) : list value :=
+  match v with
+  | VL ops0 =>
+      match dec_ops ops0 with
+      | Some ops' => VL [VI 21; VI i] :: map ev_value (snd (run_ops e (srv_pol (rx_lookup rt) root) init_sock ops'))
+      | None => [verr]
+      end
+  | _ => [verr]
+  end.
+
+Fixpoint run_conns (e : env) (rt : rxtab) (root : option fnode) (i : Z) (l : list value) : list value :=
+  match l with
+  | [] => []
+  | v :: l' => run_conn e rt root i v ++ run_conns e rt root (i + 1) l'
+  end.
+
+Definition run_srvm (c : value) : value :=
+  match c with
+  | VL (tree :: VL conns :: VL [VB ver; VL utab; VL rtab] :: _) =>
+      match dec_tree tree, dec_urltab utab, dec_rxtab rtab with
+      | Some root, Some ut, Some rt => VL (run_conns {| version := ver; url_table := ut |} rt root 0 conns)
+      | _, _, _ => verr
+      end
   | _ => verr
   end.
